@@ -6,7 +6,10 @@ round trips, exact success domain, dtype/bytes preservation for every dtype and 
 repeated calls with one mutable `shape` list.
 Source tie (run_ast_tie): the statement-by-statement model of Model/BasePy.v / BasePyCore.v is regenerated from the current
 source of tensorly/base.py and of Backend.moveaxis (tensorly/backend/core.py) by harness/props/C01_ast.py and re-proved equal in Coq;
-every case is evaluated on that model over arrays carrying a dtype tag (the dtype codes come from the dtype re-run)."""
+every case is evaluated on that model over arrays carrying a dtype tag (the dtype codes come from the dtype re-run).
+Backend glue (backend_glue_predicate): tl.reshape / moveaxis / transpose / shape / ndim against NumPy's own functions, 14 dtypes x 6
+layouts, plus what numpy_backend.py registers (ast + live objects); argument forms of these calls (Model/BasePyNp.v) in the case stream.
+Consumers (consumer_predicate): fold(M @ unfold) = n-mode product, unfold @ khatri_rao = MTTKRP (pins the column order)."""
 import itertools, os, random, re, shutil, subprocess, zlib
 import numpy as np
 from harness import common as C
@@ -15,11 +18,11 @@ from harness.props import C01_ast
 # Corr.C01.failing returns the ids of failing cases as Z (binary; a unary nat of depth ~50000 cannot be read back from
 # the VM); Z_scope is opened so that the list prints without scope delimiters, as common.run_case_shards expects.
 HEADER = """From Coq Require Import List ZArith Bool Uint63. Import ListNotations.
-From TLV Require Import Base.Tensor Model.BasePy Corr.C01.
+From TLV Require Import Base.Tensor Model.BasePy Model.BasePyNp Corr.C01.
 Open Scope Z_scope."""
 
 REFOLD = ("fold", "partial_fold", "vec_to_tensor", "partial_vec_to_tensor")
-PRIMS = ("moveaxis", "moveaxis_generic", "transpose", "reshape")
+PRIMS = ("moveaxis", "moveaxis_generic", "transpose", "reshape", "reshape_a", "transpose_a", "shape", "ndim")
 
 
 # ----------------------------------------------------------------------------- literals
@@ -94,6 +97,11 @@ def oplit(d):
     if n == "moveaxis_generic": return f"(OMoveG {C.z(d[1])} {C.z(d[2])})"
     if n == "transpose": return f"(OTrans {C.nat_list(d[1])})"
     if n == "reshape": return f"(OReshape {spec_lit(d[1])})"
+    if n == "reshape_a":
+        return f"(OReshapeA (SInt {C.z(d[2])}))" if d[1] == "int" else f"(OReshapeA (SSeq {C.z_list(list(d[2]))}))"
+    if n == "transpose_a": return "(OTransOpt None)" if d[2] is None else f"(OTransOpt (Some {C.z_list(list(d[2]))}))"
+    if n == "shape": return "OShape"
+    if n == "ndim": return "ONdim"
     raise KeyError(n)
 
 
@@ -126,6 +134,18 @@ def direct_call(d):
         return lambda a: Backend.moveaxis(BackendManager.current_backend(), a, d[1], d[2])
     if n == "transpose": return lambda a: tl.transpose(a, list(d[1]))
     if n == "reshape": return lambda a: tl.reshape(a, list(d[1]))
+    if n == "reshape_a":      # newshape as the caller may write it: an int, a tuple, a list
+        arg = d[2] if d[1] == "int" else (tuple(d[2]) if d[1] == "tuple" else list(d[2]))
+        return lambda a: tl.reshape(a, arg)
+    if n == "transpose_a":    # axes omitted / None / a tuple / a list, signed entries
+        if d[1] == "none": return lambda a: tl.transpose(a)
+        if d[1] == "none_kw": return lambda a: tl.transpose(a, axes=None)
+        axes = tuple(d[2]) if d[1] == "tuple" else list(d[2])
+        return lambda a: tl.transpose(a, axes)
+    if n == "shape":          # the tuple tl.shape returns, shown to the model as a 1-D array of Python ints
+        return lambda a: np.array([int(x) for x in tl.shape(a)], dtype=np.int64).reshape(len(tl.shape(a)))
+    if n == "ndim":
+        return lambda a: np.array(int(tl.ndim(a)), dtype=np.int64)
     raise KeyError(n)
 
 
@@ -284,6 +304,14 @@ def gen_shape(s, tier, rng, light):
             yield ("partial_fold_z", m, s, sb, se), s
             yield ("partial_tensor_to_vec_z", sb, se), s
             yield ("partial_vec_to_tensor_z", s, sb, se), s
+    # the moved axis INSIDE a skipped block (mode + skip_begin + skip_end >= ndim with the axis itself existing): garbage-in
+    # as well; what the source does (e.g. trailing sizes read before the move) is compared with the statement-level model
+    if n >= 2 and (not light or rng.random() < 0.5):
+        ov = [(m, sb, se) for sb in range(0, n) for se in range(1, n + 1) for m in range(0, n - sb) if m + sb + se >= n]
+        for m, sb, se in (ov if n <= 2 and not light else rng.sample(ov, min(len(ov), 4))):
+            rav = rng.random() < 0.5
+            yield ("partial_unfold_z", m, sb, se, rav), s
+            yield ("partial_fold_z", m, s, sb, se), s
     if n:
         yield ("partial_unfold", 0, n, 0, False), s                 # skip_begin = ndim
         yield ("partial_unfold", 0, 0, n + 1, True), s              # skip_end > ndim
@@ -332,6 +360,25 @@ def gen_shape(s, tier, rng, light):
         sp += [[s[0], -1], [-1, s[-1]]]
     for spec in sp:
         yield ("reshape", tuple(spec)), s
+    # the ARGUMENT FORMS of the backend calls (Model/BasePyNp.v): newshape as an int / a tuple / a list with signed entries
+    # (NumPy reads any negative entry as the inferred dimension), axes omitted / None / tuple / list with signed entries,
+    # tl.shape and tl.ndim
+    forms = [("int", tot), ("int", -1), ("int", tot + 1), ("int", -2 - n), ("int", 0), ("tuple", (tot,)), ("list", (-1,)), ("tuple", (-3, 1)),
+             ("list", (1, tot)), ("tuple", ()), ("list", ()), ("tuple", (-1, -1)), ("list", (tot, -7, 1))]
+    if n:
+        forms += [("tuple", (s[0], -1)), ("list", tuple(s[::-1])), ("tuple", tuple(s) + (1,)), ("list", (-1, s[-1])), ("list", tuple(s[1:]) + (s[0],))]
+    for form, arg in some(forms, 5):
+        yield ("reshape_a", form, arg), s
+    yield ("transpose_a", rng.choice(["none", "none_kw"]), None), s
+    if n:
+        p = rng.sample(modes, n)
+        yield ("transpose_a", "tuple", tuple(x - n if rng.random() < 0.5 else x for x in p)), s
+        yield ("transpose_a", "list", tuple(x - n for x in reversed(modes))), s
+        yield ("transpose_a", "tuple", tuple(modes[:-1]) + (-n - 1,)), s                 # axis out of range
+        if n >= 2:
+            yield ("transpose_a", "list", tuple(modes[:-1]) + (modes[0] - n,)), s         # repeated after normalisation
+    yield ("shape",), s
+    yield ("ndim",), s
 
 
 # ----------------------------------------------------------------------------- predicates
@@ -383,6 +430,14 @@ def domain_ok(d, s):
         return False if (k == "moveaxis" or not -n <= a < n or b < -n) else None
     if k == "transpose":
         return sorted(d[1]) == list(range(n))
+    if k == "transpose_a":
+        if d[2] is None:
+            return True                                  # C01_np_transpose_none: never rejected
+        return all(-n <= x < n for x in d[2]) and sorted(x % n for x in d[2]) == list(range(n))
+    if k == "reshape_a" and d[1] == "int":               # C01_np_reshape_int_ok_iff
+        return d[2] < 0 or d[2] == int(np.prod(s, dtype=np.int64))
+    if k in ("shape", "ndim"):
+        return True
     return None
 
 
@@ -431,6 +486,22 @@ def spec_predicate(d, orig, out):
             if v[tuple(idx[j] for j in p)] != orig[idx]:
                 return f"transpose{d[1:]}: entry {idx} at wrong place"
         return None
+    if name == "transpose_a" and dom:
+        p = list(range(n))[::-1] if d[2] is None else [x % n for x in d[2]]      # C01_np_transpose_none_layout for None
+        if v.shape != tuple(s[j] for j in p):
+            return f"transpose{d[1:]}: shape {v.shape}"
+        for idx in np.ndindex(*s):
+            if v[tuple(idx[j] for j in p)] != orig[idx]:
+                return f"transpose{d[1:]}: entry {idx} at wrong place"
+        return None
+    if name == "reshape_a" and d[1] == "int":
+        if v.shape != (orig.size,) or v.tolist() != list(range(orig.size)):
+            return f"reshape(tensor, {d[2]}): not the row-major vectorisation"
+        return None
+    if name == "shape":
+        return None if v.tolist() == list(s) else f"tl.shape returned {v.tolist()} for a tensor of shape {list(s)}"
+    if name == "ndim":
+        return None if v.tolist() == n else f"tl.ndim returned {v.tolist()} for a tensor of order {n}"
     if name in PRIMS:
         return None
     if v.size != orig.size or sorted(v.ravel().tolist()) != list(range(orig.size)):
@@ -559,7 +630,7 @@ def relayout(a, layout):
     raise KeyError(layout)
 
 
-def dtype_predicate(fn, a_int, out_int, dtype, layout="C", codes=None):
+def dtype_predicate(fn, a_int, out_int, dtype, layout="C", codes=None, meta=False):
     """re-run the same call on another dtype / memory layout: the output must be the same
     re-arrangement (positions taken from the int64 run) of the same bytes, dtype unchanged.
     codes (a list) receives the dtype codes of the input and of the result of the re-run."""
@@ -575,6 +646,10 @@ def dtype_predicate(fn, a_int, out_int, dtype, layout="C", codes=None):
         return f"raised on dtype {np.dtype(dtype)} layout {layout}: {v}"
     if not isinstance(v, np.ndarray):
         return f"result is not an ndarray but {type(v).__name__}"
+    if meta:      # tl.shape / tl.ndim: the answer depends neither on the dtype nor on the memory layout
+        if codes is not None:
+            codes[:] = [dt_code(a.dtype), dt_code(a.dtype)]
+        return None if (v.shape == out_int.shape and np.array_equal(v, out_int)) else f"answer {v.tolist()} on dtype {np.dtype(dtype)} layout {layout} instead of {out_int.tolist()}"
     if codes is not None:
         codes[:] = [dt_code(a.dtype), dt_code(v.dtype)]
     if v.dtype != a.dtype or v.dtype.str != a.dtype.str:
@@ -598,13 +673,24 @@ def dtype_predicate(fn, a_int, out_int, dtype, layout="C", codes=None):
 
 # ----------------------------------------------------------------------------- ast tie
 TIE_HEADER = """From Coq Require Import List ZArith Bool Uint63. Import ListNotations.
-From TLV Require Import Base.Tensor Model.BaseExt Model.BasePy Model.BasePyCore Proofs.BaseProofs18 Corr.C01.
+From TLV Require Import Base.Tensor Model.BaseExt Model.BasePy Model.BasePyCore Model.BasePyNp Proofs.BaseProofs18 Corr.C01.
 """
 TIE_TACTIC = """Ltac tie_mon := repeat match goal with |- context [rbind ?r _] => destruct r; cbn [rbind] end.
 Ltac tie_case := repeat match goal with x : pyseq |- _ => destruct x | x : option pyseq |- _ => destruct x | x : bool |- _ => destruct x end.
 Ltac tie_norm := rewrite ?py_insert_0, ?app_nil_r; cbn [app py_list rcatch rbind negb andb orb fst snd].
 Ltac tie_step := first [ progress tie_norm | match goal with |- context [rbind ?r _] => destruct r; cbn [rbind] end ].
 """
+# requests of the box on which the documentation gives no answer (garbage-in): a negative skip_begin / skip_end, or the moved
+# axis (k after normalisation of a negative mode + skip_begin) inside the skipped trailing or leading block.  A regenerated function that differs from the hand model ONLY there is a refactoring
+# that is harmless on the documented domain: recorded (`box_only_documented_domain`), not a broken tie; the garbage-in requests
+# of the case stream are then not judged against the hand model in that run.
+GARBAGE = {
+    "partial_unfold": "let n := Z.of_nat (length s) in let k := if 0 <=? m + sb then m + sb else m + sb + n in "
+                      "(sb <? 0) || (se <? 0) || ((0 <=? k) && (k <? n) && ((n <=? k + se) || (k <? sb)))",
+    "partial_fold": "(sb <? 0)",
+    "partial_tensor_to_vec": "let n := Z.of_nat (length s) in (sb <? 0) || (se <? 0) || ((sb <? n) && (n <=? sb + se))",
+    "partial_vec_to_tensor": "(sb <? 0)",
+}
 # the box on which a regenerated function is compared with the hand model when the universal proof fails
 BOX = {
     "tensor_to_vec": ("s", "box_shapes", "F (arange s)"),
@@ -614,13 +700,13 @@ BOX = {
              "F (arange s) m z"),
     "partial_unfold": ("'(s, m, sb, se, rav)",
                        "flat_map (fun s => flat_map (fun m => flat_map (fun sb => flat_map (fun se => [(s, m, sb, se, true); (s, m, sb, se, false)]) "
-                       "(box_skips s)) (box_skips s)) (box_modes s)) box_shapes", "F (arange s) m sb se rav"),
+                       "(zrange (- Z.of_nat (length s) - 1) (2 * length s + 3))) (zrange (- Z.of_nat (length s) - 1) (2 * length s + 3))) (box_modes s)) box_shapes", "F (arange s) m sb se rav"),
     "partial_fold": ("'(s, m, z, sb)",
-                     "flat_map (fun s => flat_map (fun m => flat_map (fun z => map (fun sb => (s, m, z, sb)) (box_skips s)) (box_targets s)) (box_modes s)) box_shapes",
+                     "flat_map (fun s => flat_map (fun m => flat_map (fun z => map (fun sb => (s, m, z, sb)) (zrange (- Z.of_nat (length s) - 1) (2 * length s + 3))) (box_targets s)) (box_modes s)) box_shapes",
                      "F (arange s) m z sb 0%Z"),
-    "partial_tensor_to_vec": ("'(s, sb, se)", "flat_map (fun s => flat_map (fun sb => map (fun se => (s, sb, se)) (box_skips s)) (box_skips s)) box_shapes",
+    "partial_tensor_to_vec": ("'(s, sb, se)", "flat_map (fun s => flat_map (fun sb => map (fun se => (s, sb, se)) (zrange (- Z.of_nat (length s) - 1) (2 * length s + 3))) (zrange (- Z.of_nat (length s) - 1) (2 * length s + 3))) box_shapes",
                               "F (arange s) sb se"),
-    "partial_vec_to_tensor": ("'(s, z, sb)", "flat_map (fun s => flat_map (fun z => map (fun sb => (s, z, sb)) (box_skips s)) (box_targets s)) box_shapes",
+    "partial_vec_to_tensor": ("'(s, z, sb)", "flat_map (fun s => flat_map (fun z => map (fun sb => (s, z, sb)) (zrange (- Z.of_nat (length s) - 1) (2 * length s + 3))) (box_targets s)) box_shapes",
                               "F (arange s) z sb 0%Z"),
     "moveaxis_generic": ("'(s, a, b)", "flat_map (fun s => flat_map (fun a => map (fun b => (s, a, b)) (zrange (- Z.of_nat (length s) - 1) (2 * length s + 4))) (box_modes s)) box_shapes",
                          "F (arange s) a b"),
@@ -649,7 +735,7 @@ def run_ast_tie(chk):
     src_path = os.path.join(C.REPO, "tensorly", "base.py")
     d = os.path.join(C.BUILD, "cases", "C01", f"ast_{os.getpid()}")
     shutil.rmtree(d, ignore_errors=True); os.makedirs(d, exist_ok=True)
-    res = {"proved_universally": [], "box_only": [], "untranslated": [], "skipped": []}
+    res = {"proved_universally": [], "box_only": [], "box_only_documented_domain": [], "untranslated": [], "skipped": []}
     try:
         src = open(src_path).read()
         items = C01_ast.translate(src)
@@ -712,9 +798,10 @@ def run_ast_tie(chk):
         f1 = call.replace("F ", f"ast_{name} P0 ", 1); f2 = call.replace("F ", f"g_{name} P0 ", 1)
         open(bfn, "w").write(TIE_HEADER + defs + "Open Scope Z_scope.\n"
                              f"Definition bad := filter (fun x => let {pat} := x in differ ({f1}) ({f2})) ({dom}).\n"
-                             "Eval vm_compute in (Z.of_nat (length bad), firstn 2 bad).\n")
+                             f"Definition bad_dom := filter (fun x => let {pat} := x in negb ({GARBAGE.get(name, 'false')})) bad.\n"
+                             "Eval vm_compute in (Z.of_nat (length bad_dom), Z.of_nat (length bad), firstn 2 (bad_dom ++ bad)).\n")
         r = _coqc(bfn)
-        m = re.search(r"=\s*\((\d+),", r.stdout.replace("\n", " "))
+        m = re.search(r"=\s*\((\d+),\s*(\d+),", r.stdout.replace("\n", " "))
         if r.returncode in (124, 137, -9, -15):
             res["skipped"].append(name)
         elif r.returncode != 0 or not m:
@@ -724,6 +811,8 @@ def run_ast_tie(chk):
             chk.broken.append({"what": f"ast tie: the model regenerated from {_qual(name)} DIFFERS from the hand model g_{name} of Model/BasePy.v / BasePyCore.v "
                                        f"on {m.group(1)} requests of the box (first ones shown)",
                                "detail": {"regenerated": [t for n_, t, _ in items if n_ == name][0], "differing_requests": r.stdout[-800:]}})
+        elif int(m.group(2)) > 0:
+            res["box_only_documented_domain"].append(name)
         else:
             res["box_only"].append(name)
     if not any(b.get("what", "").startswith("ast tie") for b in chk.broken):
@@ -869,8 +958,139 @@ def dispatch_predicate(chk):
 
 
 
+def backend_glue_predicate(chk):
+    """tensorly/backend/numpy_backend.py under base.py: tl.reshape / tl.moveaxis / tl.transpose / tl.shape resolve to NumPy's own
+    functions (registered by name with Backend.register_method: no wrapper that could copy through another dtype), tl.ndim to
+    `return tensor.ndim`.  Recorded from the SOURCE (ast of numpy_backend.py) and from the LIVE objects (`backend.f is np.f`);
+    a wrapper is not a defect in itself, so whatever these say, tl.f(args) must return exactly what np.f(args) returns - same
+    dtype (byte order included), same shape, same bytes - for all 14 dtypes x 6 memory layouts."""
+    import ast as _ast
+    import tensorly as tl
+    names = ("reshape", "moveaxis", "transpose", "shape", "ndim")
+    rec = {"source": {}, "live_object_is_numpy_function": {}}
+    try:
+        from tensorly.backend import core as _core
+        tree = _ast.parse(open(os.path.join(C.REPO, "tensorly", "backend", "numpy_backend.py")).read())
+        cls = [x for x in tree.body if isinstance(x, _ast.ClassDef) and x.name == "NumpyBackend"]
+        body_defs = {f.name: f for f in cls[0].body if isinstance(f, _ast.FunctionDef)} if cls else {}
+        registered = set()
+        for node in tree.body:
+            if isinstance(node, _ast.For) and len(node.body) == 1 and \
+                    _ast.unparse(node.body[0]).replace(" ", "") == "NumpyBackend.register_method(name,getattr(np,name))":
+                for c_ in _ast.walk(node.iter):
+                    if isinstance(c_, _ast.Constant) and isinstance(c_.value, str):
+                        registered.add(c_.value)
+                    elif isinstance(c_, _ast.Name) and isinstance(getattr(_core, c_.id, None), list):
+                        registered.update(x for x in getattr(_core, c_.id) if isinstance(x, str))
+        for n_ in names:
+            if n_ in body_defs:
+                rec["source"][n_] = "defined in the class body: " + " ".join(_ast.unparse(x) for x in body_defs[n_].body if not
+                                                                            (isinstance(x, _ast.Expr) and isinstance(x.value, _ast.Constant)))[:120]
+            else:
+                rec["source"][n_] = "registered by name: getattr(np, name)" if n_ in registered else "not found in numpy_backend.py"
+    except Exception as e:      # noqa  (a source that cannot be read this way is recorded; the behavioural comparison below decides)
+        rec["source"] = {"unreadable": f"{type(e).__name__}: {e}"[:200]}
+    try:
+        from tensorly.backend import BackendManager
+        be = BackendManager.current_backend()
+        for n_ in names:
+            rec["live_object_is_numpy_function"][n_] = getattr(be, n_, None) is getattr(np, n_)
+    except Exception as e:      # noqa
+        rec["live_object_is_numpy_function"] = {"unreadable": f"{type(e).__name__}: {e}"[:200]}
+    lab = labelled((2, 3, 4))       # (no palindromic shape: a reversed shape must show)
+    calls = [
+        ("reshape", "(t, (3, -1))", lambda f, a: f(a, (3, -1))), ("reshape", "(t, [2, 12])", lambda f, a: f(a, [2, 12])), ("reshape", "(t, -1)", lambda f, a: f(a, -1)),
+        ("moveaxis", "(t, -1, 0)", lambda f, a: f(a, -1, 0)), ("moveaxis", "(t, 0, 2)", lambda f, a: f(a, 0, 2)),
+        ("transpose", "(t, (2, 0, 1))", lambda f, a: f(a, (2, 0, 1))), ("transpose", "(t)", lambda f, a: f(a)), ("transpose", "(t, [-1, 0, 1])", lambda f, a: f(a, [-1, 0, 1])),
+        ("shape", "(t)", lambda f, a: f(a)), ("ndim", "(t)", lambda f, a: f(a)),
+    ]
+    for dt in DTYPES:
+        for lay in LAYOUTS:
+            vals = value_pool(dt, lab.size)
+            a = relayout(vals[lab.ravel()].reshape(lab.shape), lay)
+            for n_, how, call in calls:
+                r1 = C.call_impl(lambda x: call(getattr(tl, n_), x), a)
+                r2 = C.call_impl(lambda x: call(getattr(np, n_), x), a)
+                if ("crash", "timeout") in (r1, r2):
+                    continue
+                chk.cov["evaluations"] += 1
+                same = r1[0] == r2[0]
+                if same and r1[0] == "ok":
+                    v1, v2 = r1[1], r2[1]
+                    if isinstance(v2, np.ndarray):
+                        same = isinstance(v1, np.ndarray) and v1.dtype == v2.dtype and v1.dtype.str == v2.dtype.str and v1.shape == v2.shape
+                        if same and dt is object:
+                            same = all(x is y for x, y in zip(v1.ravel(), v2.ravel()))
+                        elif same:
+                            same = np.ascontiguousarray(v1).tobytes() == np.ascontiguousarray(v2).tobytes()
+                    else:
+                        same = type(v1) is type(v2) and v1 == v2
+                if not same:
+                    chk.finding("tensorly." + n_, {"shape": [2, 3, 4], "descr": repr((f"tl.{n_}{how} compared with numpy's {n_}",)),
+                                                   "dtype": "object" if dt is object else str(np.dtype(dt)), "layout": lay},
+                                f"tl.{n_}{how} on dtype {'object' if dt is object else np.dtype(dt)} layout {lay} does not return what numpy's {n_} returns", "C01_backend_is_numpy")
+    chk.cov["numpy_backend_glue"] = rec
+
+
+def consumer_predicate(chk):
+    """transcription of C01_mode_dot_is_fold_matmul_unfold: fold(M @ unfold(T, mode), mode, new_shape), made of tl.unfold / tl.fold,
+    is the n-mode product  R[.., j, ..] = sum_i M[j, i] T[.., i, ..]  (computed here with np.tensordot + np.moveaxis on integer
+    data, exact) for every signed mode: the mode-k fibres are the columns and fold reads the columns in the order unfold wrote
+    them (ANY consistent column order would do for this consumer).  The column ORDER itself is pinned by the second consumer,
+    the MTTKRP  unfold(T, k) @ khatri_rao(U_j, j != k)  (rows of the Khatri-Rao product: row-major over the remaining modes in
+    increasing order, built here with plain numpy), compared with the defining sum (np.einsum, exact on integers).
+    Whether tensorly.tenalg.mode_dot itself returns the same tensor is recorded only (that function is C02's)."""
+    import tensorly as tl
+    r = random.Random(8)
+    agree = {"compared": 0, "equal": 0}
+    for shape in [(2, 3, 4), (3, 1, 2, 2), (4, 3), (5,), (2, 2, 3, 1, 2)]:
+        n = len(shape)
+        T = np.array([r.randint(-9, 9) for _ in range(int(np.prod(shape)))], dtype=np.int64).reshape(shape)
+        for m in range(-n, n):
+            k = m % n
+            a = r.choice([1, 2, 3])
+            M = np.array([r.randint(-5, 5) for _ in range(a * shape[k])], dtype=np.int64).reshape(a, shape[k])
+            new_shape = list(shape); new_shape[k] = a
+            out = C.call_impl(lambda _: tl.fold(np.dot(M, tl.unfold(T, m)), m, new_shape), None)
+            if out == ("crash", "timeout"):
+                continue
+            chk.cov["evaluations"] += 1
+            exp = np.moveaxis(np.tensordot(M, T, axes=([1], [k])), 0, k)
+            ok = out[0] == "ok" and isinstance(out[1], np.ndarray) and out[1].shape == exp.shape and np.array_equal(out[1], exp)
+            if not ok:
+                chk.finding("tensorly.base.fold", {"shape": list(shape), "descr": repr((f"consumer: fold(M @ unfold(T, {m}), {m}, new_shape) against the n-mode product",)),
+                                                   "dtype": "int64", "layout": "C"},
+                            f"fold(M @ unfold(T, {m}), {m}, {new_shape}) is not the mode-{k} product of T {list(shape)} with M {list(M.shape)}", "C01_consumer_mode_dot")
+            if n >= 2 and n <= 4:
+                R_ = 2
+                Us = [np.array([r.randint(-3, 3) for _ in range(shape[j] * R_)], dtype=np.int64).reshape(shape[j], R_) for j in range(n)]
+                rest = [j for j in range(n) if j != k]
+                kr = np.ones((1, R_), dtype=np.int64)
+                for j in rest:                      # row-major: the LAST remaining mode varies fastest
+                    kr = (kr[:, None, :] * Us[j][None, :, :]).reshape(-1, R_)
+                letters = "abcd"[:n]
+                expm = np.einsum(letters + "," + ",".join(letters[j] + "r" for j in rest) + "->" + letters[k] + "r", T, *[Us[j] for j in rest])
+                outm = C.call_impl(lambda _: np.dot(tl.unfold(T, m), kr), None)
+                if outm != ("crash", "timeout"):
+                    chk.cov["evaluations"] += 1
+                    if not (outm[0] == "ok" and outm[1].shape == expm.shape and np.array_equal(outm[1], expm)):
+                        chk.finding("tensorly.base.unfold", {"shape": list(shape), "descr": repr((f"consumer: unfold(T, {m}) @ khatri_rao(factors but {k}) against the MTTKRP sum",)),
+                                                             "dtype": "int64", "layout": "C"},
+                                    f"unfold(T, {m}) @ khatri_rao(U_j, j != {k}) is not the MTTKRP of T {list(shape)}: the columns of the unfolding are not "
+                                    "row-major over the remaining modes in increasing order", "C01_consumer_mttkrp")
+            try:
+                from tensorly.tenalg import mode_dot
+                got = mode_dot(T, M, m)
+                agree["compared"] += 1
+                agree["equal"] += int(isinstance(got, np.ndarray) and got.shape == exp.shape and np.array_equal(got, exp))
+            except Exception:      # noqa  (C02's function: recorded only)
+                agree["compared"] += 1
+    chk.cov["tenalg_mode_dot_agrees_with_fold_matmul_unfold"] = agree
+
+
 def entry_point(d):
-    return {"moveaxis": "tensorly.moveaxis", "transpose": "tensorly.transpose", "reshape": "tensorly.reshape",
+    return {"moveaxis": "tensorly.moveaxis", "transpose": "tensorly.transpose", "reshape": "tensorly.reshape", "reshape_a": "tensorly.reshape",
+            "transpose_a": "tensorly.transpose", "shape": "tensorly.shape", "ndim": "tensorly.ndim",
             "moveaxis_generic": "tensorly.backend.core.Backend.moveaxis"}.get(d[0], "tensorly.base." + (d[0][:-2] if d[0].endswith("_z") else d[0]))
 
 
@@ -891,7 +1111,7 @@ def judge(d, shape, combos):
         msgs.append((msg, "C01_layout_roundtrip", {"dtype": "int64", "layout": "C"}))
     elif out[0] == "ok":
         for j, (dt, lay) in enumerate(combos):
-            m2 = dtype_predicate(prim, a_in, np.asarray(out[1]), dt, lay, codes if j == 0 else None)
+            m2 = dtype_predicate(prim, a_in, np.asarray(out[1]), dt, lay, codes if j == 0 else None, meta=d[0] in ("shape", "ndim"))
             if m2:
                 msgs.append((m2, "C01_dtype_bytes", {"dtype": "object" if dt is object else str(np.dtype(dt)), "layout": lay}))
                 break
@@ -1002,6 +1222,8 @@ def run(chk):
     defaults_predicate(chk)
     repeat_call_predicate(chk)
     dispatch_predicate(chk)
+    backend_glue_predicate(chk)
+    consumer_predicate(chk)
     corpus = load_corpus()
     stream = itertools.chain(((tuple_deep(c["descr"]), tuple(c["shape"])) for c in corpus), gen_cases(tier, rng))
     work = []
@@ -1070,17 +1292,18 @@ def run(chk):
     chk.cov["rule"] = ("every tensor shape of order 0-4 over mode sizes {1,2,3}, plus every shape of order 1-3 over {0,1,2,3} that has an empty mode "
                        "(thorough: order<=5, +200 random shapes with sizes <= 6 and at most 720 entries, every order-6 shape over {1,2} with sampled arguments; order-4 shapes with an empty mode, orders 5-11 over {1,2} and orders 5-6 over {1,2,3} "
                        "are SAMPLED, not exhaustive) x every function of tensorly/base.py x every signed mode -n..n-1 (+1 invalid at either end) x every "
-                       "(skip_begin, skip_end, ravel) split with every documented mode 0 <= mode < ndim-skip_begin-skip_end (plus one non-existent mode; requests whose moved axis overlaps a skipped block are garbage-in and not generated) "
+                       "(skip_begin, skip_end, ravel) split with every documented mode 0 <= mode < ndim-skip_begin-skip_end (plus one non-existent mode; garbage-in requests - negative skips, moved axis inside a skipped block - are sampled and compared with the statement-level model only) "
                        "x every ordered row/column split of matricize (order<=3; sampled above) + invalid requests "
-                       "+ the backend primitives moveaxis (NumPy and the generic Backend.moveaxis) / transpose / reshape; entries are the distinct integers 0..n-1 so "
+                       "+ the backend primitives moveaxis (NumPy and the generic Backend.moveaxis) / transpose / reshape, their argument forms (int / tuple / list newshape, axes None / signed) and tl.shape / tl.ndim; entries are the distinct integers 0..n-1 so "
                        "one run decides the shape for all values; each successful case is re-run on other dtypes / memory layouts (C, F, strided slice, negative strides, transposed view with rotated strides, read-only broadcast view with zero strides) and must "
                        "give the same re-arrangement of the same bytes; a case is non-trivial if the tensor has more than one entry or the request is rejected; "
                        "distinct key = (function, arguments, shape)")
     for b in broken:
         chk.broken.append({"what": "correspondence corr:C01 shard not evaluated", "detail": b})
-    # requests with negative skips are garbage-in: the hand-written g_f speaks for the source on them only when this run's
-    # tie proved  regenerated = g_f  for ALL arguments (a `box_only` tie covers non-negative skips only)
-    proved = set((chk.cov.get("ast_tie") or {}).get("proved_universally", []))
+    # requests with negative skips / a moved axis inside a skipped block are garbage-in: the hand-written g_f speaks for the
+    # source on them when this run's tie holds - proved for ALL arguments, or `box_only` (the box contains every signed
+    # skip_begin / skip_end in -n-1..n+1 and every overlapping request on its shapes); not when the tie was skipped (timeout)
+    proved = set((chk.cov.get("ast_tie") or {}).get("proved_universally", [])) | set((chk.cov.get("ast_tie") or {}).get("box_only", []))
     dropped = 0
     for i in sorted(failing):
         d, shape = meta[i]
@@ -1088,7 +1311,7 @@ def run(chk):
             dropped += 1
             continue
         chk.disagreement("corr:C01 (Model/Base.v vs tensorly/base.py)", {"descr": repr(d), "shape": list(shape)})
-    chk.cov["negative_skip_disagreements_not_judged_because_the_tie_is_box_only"] = dropped
+    chk.cov["garbage_in_disagreements_not_judged_because_the_tie_was_not_evaluated"] = dropped
     chk.assumptions = ["NumPy reshape/moveaxis/transpose behave as modelled in Base/Tensor.v (checked on this run's primitive cases and, through the "
                        "dtype/layout re-runs, on F-contiguous, strided, negative-stride, transposed and zero-stride broadcast views)",
                        "tensor data are compared as lists of labels / bytes of the logical row-major order; memory layout of the result is not part of the property"]
@@ -1127,11 +1350,11 @@ def replay(payload):
     C.reset_backends()
     d = tuple_deep(ast.literal_eval(inp["descr"]))
     shape = tuple(inp["shape"])
-    if len(d) == 1 and ("(" in d[0] or "repeated" in d[0] or "backend state" in d[0]):          # a finding of defaults_predicate / repeat_call_predicate
+    if len(d) == 1 and ("(" in d[0] or "repeated" in d[0] or "backend state" in d[0] or "numpy's" in d[0] or "consumer" in d[0]):          # a finding of defaults_predicate / repeat_call_predicate
         class _Chk:
             cov = {"evaluations": 0}; found = []
             def finding(self, *a): self.found.append(a)
-        c_ = _Chk(); defaults_predicate(c_); repeat_call_predicate(c_); dispatch_predicate(c_)
+        c_ = _Chk(); defaults_predicate(c_); repeat_call_predicate(c_); dispatch_predicate(c_); backend_glue_predicate(c_); consumer_predicate(c_)
         print("replay:", d, "->", c_.found[0][2] if c_.found else "holds")
         return 1 if c_.found else 0
     dtn = inp.get("dtype", "int64")
